@@ -1050,7 +1050,7 @@ def rule_wrap_not_type(prog, rep, tier):
 
 
 # ---------------------------------------------------------------------------- DOC-ALL-LINES
-def rule_doc_all_lines(prog, rep, tier, entry="docstring_parsers.parse_docstring"):
+def rule_doc_all_lines(prog, rep, tier, entry="docstring_parsers.parse_docstring", package_wide=False):
     """DOC-ALL-LINES (C18, C01): a description can run over several lines (the writer wraps it).  Where a reader builds an entry's
     'doc' from the scanner's lines, it takes all of them (a slice, a join) - a single line picked by a constant index >= 1
     leaves the continuation lines unread (and raises when the block is shorter), unless the length of that very sequence is
@@ -1095,5 +1095,21 @@ def rule_doc_all_lines(prog, rep, tier, entry="docstring_parsers.parse_docstring
                             "DOC-ALL-LINES", prog.owner_name(f), "description-from-one-line:%s" % tag,
                             "the description is taken from the single element %s of the scanned lines: what the writer wrapped onto further lines is dropped when it is "
                             "read back (and a block without that line raises IndexError); the parameter reader of the same style joins `lines[1:]`" % src(s_, 50), loc(prog, s_)))
+    # the same mistake in its other spelling, anywhere in the package: `"doc": .. next(<one line of text.split("\n") that starts with a marker>) ..`
+    for f in (prog.all_functions() if package_wide else prog.reachable([start])):
+        for d in ast.walk(f.node):
+            if not isinstance(d, ast.Dict) or enclosing_fn(d) is not f:
+                continue
+            for k, v in zip(d.keys, d.values):
+                if not (isinstance(k, ast.Constant) and k.value == "doc"):
+                    continue
+                for c in ast.walk(v):
+                    if isinstance(c, ast.Call) and isinstance(c.func, ast.Name) and c.func.id == "next" and c.args and isinstance(c.args[0], ast.GeneratorExp) \
+                            and any(_is_line_split(x) for g in c.args[0].generators for x in ast.walk(g.iter)):
+                        n += 1
+                        rep.violation(Finding(
+                            "DOC-ALL-LINES", prog.owner_name(f), "description-from-one-line:next-of-lines",
+                            "the description is the first line of the text that passes a test (%s): what the writer wrapped onto the following lines is dropped "
+                            "when it is read back" % src(c, 70), loc(prog, c)))
     if n == 0:
         rep.ob("DOC-ALL-LINES", "no description is taken from a single scanned line", "holds", "", "entries are built from slices / joins of the scanned lines")
